@@ -271,10 +271,10 @@ def shards(tier, seed):
     out = []
     for k in range(8):
         out.append(dict(kind='catalogue', seed=seed * 1000 + k,
-                        n=12 if tier == 'quick' else 300))
+                        n=12 if tier == 'quick' else 900))
     for k in range(8):
         out.append(dict(kind='specs', seed=seed * 1000 + 100 + k,
-                        n=25 if tier == 'quick' else 600))
+                        n=25 if tier == 'quick' else 1800))
     return out
 
 
